@@ -177,7 +177,7 @@ class Engine:
         the primitives, symbolic numbers elsewhere); parameters with a default keep it unless
         overridden."""
         overrides = overrides or {}
-        params = fn.params[1:] if fn.params and fn.params[0] == 'self' else fn.params
+        params = fn.params[1:] if fn.params and fn.params[0] in ('self', 'cls') else fn.params
         defaults = fn.defaults()
         args, kwargs = [], {}
         for p in params:
